@@ -43,11 +43,11 @@ struct Case
     }
 };
 
-static lib::Packet makePacket(const PacketSpec& s)
+// fills a packet in place: the set-up itself must not go through the operations under test
+static void fillFromSpec(lib::Packet& p, const PacketSpec& s)
 {
-    lib::Packet p;
     if (s.shape == 1)
-        p = buildPacket(s.r, s.version);
+        p.setPayload(buildPayload(s.r));
     else if (s.shape == 2)
     {
         static const uint8_t dummy = 0;
@@ -65,6 +65,11 @@ static lib::Packet makePacket(const PacketSpec& s)
         p.setCommonFlags(s.r.flags);
         p.setSegmentType(static_cast<lib::MessageHeader::SegmentType>((s.segType & 3) << 2));
     }
+}
+static std::unique_ptr<lib::Packet> makePacket(const PacketSpec& s)
+{
+    auto p = std::make_unique<lib::Packet>();
+    fillFromSpec(*p, s);
     return p;
 }
 
@@ -90,24 +95,62 @@ static Verdict equalityLaws(const lib::Packet& a, const lib::Packet& b, const ch
 
 static Verdict runPacket(const Case& c, Info& info)
 {
-    auto srcPtr = std::make_unique<lib::Packet>(makePacket(c.src));
+    auto srcPtr = makePacket(c.src);
     lib::Packet& src = *srcPtr;
     const Snap before = snap(src);
     std::unique_ptr<lib::Packet> dstPtr;
     switch (c.relation)
     {
         case 1:
-            dstPtr = std::make_unique<lib::Packet>(src);
+            dstPtr = makePacket(c.src);
             break;
         case 2:
-            dstPtr = std::make_unique<lib::Packet>(src);
+            dstPtr = makePacket(c.src);
             if (dstPtr->verifHasPayload())
                 dstPtr->getPayload().setRawPayloadType(static_cast<uint8_t>(dstPtr->getPayloadType() ^ 0x10));
             break;
         case 3:
             break;
+        case 4:
+        {
+            // equal-looking target: identical to the source except for exactly one header field
+            dstPtr = makePacket(c.src);
+            lib::Packet& d = *dstPtr;
+            switch (c.dst.seq % 9)
+            {
+                case 0:
+                    d.setVersion(static_cast<uint8_t>(d.getVersion() + 1));
+                    break;
+                case 1:
+                    d.setDeviceId(static_cast<uint16_t>(d.getDeviceId() + 1));
+                    break;
+                case 2:
+                    d.setStreamId(static_cast<uint8_t>(d.getStreamId() + 1));
+                    break;
+                case 3:
+                    d.setSequenceCounter(static_cast<uint16_t>(d.getSequenceCounter() + 1));
+                    break;
+                case 4:
+                    d.setTimestamp(d.getTimestamp() + 1);
+                    break;
+                case 5:
+                    d.setInterfaceId(d.getInterfaceId() + 1);
+                    break;
+                case 6:
+                    d.setVendorId(static_cast<uint16_t>(d.getVendorId() + 1));
+                    break;
+                case 7:
+                    d.setCommonFlags(static_cast<uint8_t>(d.getCommonFlags() ^ 0x01));
+                    break;
+                default:
+                    d.setSegmentType(d.getSegmentType() == lib::MessageHeader::SegmentType::unsegmented ? lib::MessageHeader::SegmentType::lastSegment
+                                                                                                        : lib::MessageHeader::SegmentType::unsegmented);
+                    break;
+            }
+            break;
+        }
         default:
-            dstPtr = std::make_unique<lib::Packet>(makePacket(c.dst));
+            dstPtr = makePacket(c.dst);
             break;
     }
     if (dstPtr)
@@ -160,7 +203,7 @@ static Verdict runPacket(const Case& c, Info& info)
     }
     result = snap(*res);
     VF_CHECK(result == before, "result of the operation differs from the source: result " << result.str() << " source was " << before.str()
-                                                                                           << (dstPtr && c.op % 2 ? " (target held " + snap(makePacket(c.dst)).str() + ")" : ""));
+                                                                                           << (dstPtr && c.op % 2 ? " (independent target spec " + snap(*makePacket(c.dst)).str() + ")" : ""));
     if (c.op <= 1)
     {
         // copies share no state: mutate the copy, the source must not move; then destroy the source
@@ -185,16 +228,16 @@ static Verdict runPacket(const Case& c, Info& info)
         srcPtr.reset();  // moved-from state is not asserted, only that it can be destroyed
         VF_CHECK(snap(*res) == before, "destroying the moved-from source changed the result");
     }
-    bool targetHadPayload = dstPtr && c.op % 2 == 1 && c.relation != 3 && snap(makePacket(c.dst)).hasPayload;
+    bool targetHadPayload = dstPtr && c.op % 2 == 1 && c.relation != 3 && (c.relation != 0 ? before.hasPayload : snap(*makePacket(c.dst)).hasPayload);
     if (targetHadPayload)
         info.tag("target_already_held_a_payload");
     if (before.hasPayload && before.payload.empty())
         info.tag("zero_length_payload_source");
     if (!before.hasPayload)
         info.tag("payload_less_source");
-    if (c.relation == 1 || c.relation == 2)
+    if (c.relation == 1 || c.relation == 2 || c.relation == 4)
         info.tag("equal_looking_target");
-    info.nontrivial = targetHadPayload || (before.hasPayload && before.payload.empty()) || c.relation == 1 || c.relation == 2 || !before.hasPayload;
+    info.nontrivial = targetHadPayload || (before.hasPayload && before.payload.empty()) || c.relation == 1 || c.relation == 2 || c.relation == 4 || !before.hasPayload;
     return Verdict::pass();
 }
 
@@ -281,8 +324,7 @@ static lib::Payload makeAsamPayload(const PacketSpec& s)
     static const uint8_t dummy = 0;
     if (s.shape != 1)
         return lib::Payload(lib::PayloadType(static_cast<lib::CmpHeader::MessageType>(s.r.messageType()), s.r.payloadTypeByte()), &dummy, 0);
-    lib::Packet p = buildPacket(s.r, 1);
-    return p.getPayload();
+    return buildPayload(s.r);
 }
 static TECMP::Payload makeTecmpPayload(const PacketSpec& s)
 {
@@ -334,7 +376,7 @@ static rc::Gen<Case> genCase(int)
     return rc::gen::exec([]() {
         Case c;
         c.domain = *rc::gen::weightedElement<uint8_t>({{6, 0}, {2, 1}, {2, 2}});
-        c.relation = *rc::gen::weightedElement<uint8_t>({{5, 0}, {2, 1}, {2, 2}, {2, 3}});
+        c.relation = *rc::gen::weightedElement<uint8_t>({{5, 0}, {2, 1}, {2, 2}, {2, 3}, {4, 4}});
         c.op = *range<uint8_t>(0, 3);
         c.src = *genSpec();
         c.dst = *genSpec();
@@ -357,7 +399,7 @@ static void enumerate(int, const std::function<bool(const Case&)>& emit)
     for (uint8_t domain = 0; domain < 3; ++domain)
         for (uint8_t srcShape = 0; srcShape < 3; ++srcShape)
             for (uint8_t dstShape = 0; dstShape < 3; ++dstShape)
-                for (uint8_t relation = 0; relation < 4; ++relation)
+                for (uint8_t relation = 0; relation < 5; ++relation)
                     for (uint8_t op = 0; op < 4; ++op)
                         for (uint8_t srcKind : {uint8_t(rkCan), uint8_t(rkLin), uint8_t(rkGeneric), uint8_t(rkCmStatus)})
                             for (uint8_t dstKind : {uint8_t(rkCan), uint8_t(rkEthernet)})
@@ -373,6 +415,10 @@ static void enumerate(int, const std::function<bool(const Case&)>& emit)
                                     c.src.r.seed = 5;
                                     c.src.r.ts = 77;
                                     c.src.dev = 2;
+                                    c.src.r.vendorId = 9;
+                                    c.src.r.ifId = 7;
+                                    c.src.stream = 4;
+                                    c.src.seq = 5;
                                     c.dst = c.src;
                                     c.dst.shape = dstShape;
                                     c.dst.r.kind = dstKind;
@@ -381,6 +427,7 @@ static void enumerate(int, const std::function<bool(const Case&)>& emit)
                                         c.dst.r.ts = 78;
                                         c.dst.r.seed = 6;
                                     }
+                                    c.dst.seq = static_cast<uint16_t>(srcKind + dstKind + op + srcShape * 3 + sameHeader * 4);
                                     if (!emit(c))
                                         return;
                                 }
@@ -395,7 +442,7 @@ int main(int argc, char** argv)
     prop.enumerate = enumerate;
     prop.enumerationIsExhaustive = true;
     prop.enumerationNote = "all combinations of {Packet, ASAM payload, TECMP payload} x source shape {payload-less, with payload, zero-length payload} x "
-                           "target shape x relation {independent, copy, copy with another payload type, self} x {copy-construct, copy-assign, "
+                           "target shape x relation {independent, copy, copy with another payload type, self, copy with one header field changed} x {copy-construct, copy-assign, "
                            "move-construct, move-assign} x 4 source kinds x 2 target kinds x same / different header fields";
     return pbtMain(argc, argv, prop);
 }
